@@ -1,11 +1,18 @@
-"""Translator plugin for C03: the integer formulas of `_hstack_params` / `_vstack_params` and of the axis
-normalisation in `Hstack/Vstack/Diag._apply` (T2).  The loop structure itself (fold over `shapes[1:]` with state
-`(shape, idx, indices)`) is modelled by hand in Model/C03.lean and tied by the correspondence check; what is
-extracted here are the expressions a maintainer is likely to touch: how the axis is normalised before the
-comparison `i == axis`, what is added to the shape entry and to the running index, what is appended to
-`indices` and whether it is appended before the index is advanced, and the off-axis rejection test."""
+"""Translator plugin for C03 (sigpy/linop.py -> lean/SigpyVerif/Gen/StackParams.lean).
+
+T3 (class `_Seq`): `_hstack_params` and `_vstack_params` are translated FAITHFULLY, statement by statement in source
+order, into `Gen.hstackParams / hstackParamsAx / hstackOuterStep / hstackInnerStep` (and `vstack…`): the
+`axis is None` recursion, `shapes[0]` / `shapes[0][axis]` (IndexError) before `axis = axis % ndim`, the fold over
+`shapes[1:]` with the `len(shape) != ndim` test, and the fold over `i in range(ndim)` with the source's branch
+structure (`if i == axis: … elif shape[i] != ishape[i]: raise`) and the three on-axis updates in source order.
+`_guard`: the shape guards `Linop._check_ishape/_check_oshape` -> `Gen.checkIshape / checkOshape`.
+T2 (`_apply_axis`): the axis normalisation of `Hstack/Vstack/Diag._apply`.
+`Props/C03Loop.lean` proves that the translated loops equal the hand-written model `stackParams` / `zipGuard` for
+every input (`gen_loop_eq_combined`, `gen_guard_agree`).  Any construct outside the subset raises `T.Unsupported`
+(a broken obligation, never a pass)."""
 import ast
 import copy
+import re
 
 from harness.translate import py2lean as T
 from harness.translate.gen import HEADER, _parse
@@ -29,85 +36,6 @@ def _flat(node):
     return _Flatten().visit(copy.deepcopy(node))
 
 
-def _params(fn, acc, prefix, out):
-    """fn = `_hstack_params` / `_vstack_params`; acc = name of the accumulated shape list"""
-    # 1. axis normalisation at function level (after the `axis is None` early return): `axis = <expr>`
-    norm = None
-    for st in fn.body:
-        if isinstance(st, ast.Assign) and len(st.targets) == 1 and isinstance(st.targets[0], ast.Name) \
-                and st.targets[0].id == "axis":
-            if norm is not None:
-                raise T.Unsupported("%s: axis assigned twice" % fn.name)
-            norm = st.value
-        if isinstance(st, ast.AugAssign) and isinstance(st.target, ast.Name) and st.target.id == "axis":
-            if norm is not None:
-                raise T.Unsupported("%s: axis assigned twice" % fn.name)
-            norm = ast.BinOp(left=ast.Name(id="axis", ctx=ast.Load()), op=st.op, right=st.value)
-    f = "axis" if norm is None else T.formula(norm, ["axis", "ndim"])
-    out.append("/-- generated from `%s`: the axis the loop compares `i` with%s -/\ndef %sAxis (axis ndim : Int) : Int := %s\n" % (
-        fn.name, "" if norm is not None else " (NOT normalised in the source)", prefix, f))
-    # 2. the loops
-    outer = [s for s in fn.body if isinstance(s, ast.For)]
-    if len(outer) != 1 or not (isinstance(outer[0].target, ast.Name) and outer[0].target.id == "shape"):
-        raise T.Unsupported("%s: outer loop form" % fn.name)
-    it = outer[0].iter
-    if not (isinstance(it, ast.Subscript) and isinstance(it.value, ast.Name) and it.value.id == "shapes"
-            and isinstance(it.slice, ast.Slice) and isinstance(it.slice.lower, ast.Constant) and it.slice.lower.value == 1
-            and it.slice.upper is None and it.slice.step is None):
-        raise T.Unsupported("%s: outer loop is not over shapes[1:]" % fn.name)
-    inner = [s for s in outer[0].body if isinstance(s, ast.For)]
-    if len(inner) != 1 or not (isinstance(inner[0].target, ast.Name) and inner[0].target.id == "i"):
-        raise T.Unsupported("%s: inner loop form" % fn.name)
-    rng = inner[0].iter
-    if not (isinstance(rng, ast.Call) and isinstance(rng.func, ast.Name) and rng.func.id == "range" and len(rng.args) == 1
-            and isinstance(rng.args[0], ast.Name) and rng.args[0].id == "ndim"):
-        raise T.Unsupported("%s: inner loop is not range(ndim)" % fn.name)
-    if len(inner[0].body) != 1 or not isinstance(inner[0].body[0], ast.If):
-        raise T.Unsupported("%s: inner loop body form" % fn.name)
-    br = inner[0].body[0]
-    ex = T.Expr({"i": T.INT, "axis": T.INT, "ndim": T.INT})
-    out.append("/-- generated from `%s`: the on-axis test -/\ndef %sOnAxis (i axis ndim : Int) : Bool := decide %s\n" % (
-        fn.name, prefix, ex.cond(_flat(br.test))))
-    shape_step = idx_step = appended = None
-    order = []
-    for st in br.body:
-        if isinstance(st, ast.AugAssign) and isinstance(st.target, ast.Subscript) and isinstance(st.target.value, ast.Name) \
-                and st.target.value.id == acc:
-            e = ast.BinOp(left=_flat(st.target), op=st.op, right=_flat(st.value))
-            shape_step = T.formula(e, [acc + "_i", "shape_i", "idx"])
-            order.append("shape")
-        elif isinstance(st, ast.AugAssign) and isinstance(st.target, ast.Name) and st.target.id == "idx":
-            e = ast.BinOp(left=ast.Name(id="idx", ctx=ast.Load()), op=st.op, right=_flat(st.value))
-            idx_step = T.formula(e, [acc + "_i", "shape_i", "idx"])
-            order.append("idx")
-        elif isinstance(st, ast.Expr) and isinstance(st.value, ast.Call) and isinstance(st.value.func, ast.Attribute) \
-                and st.value.func.attr == "append" and isinstance(st.value.func.value, ast.Name) \
-                and st.value.func.value.id == "indices" and len(st.value.args) == 1:
-            appended = T.formula(_flat(st.value.args[0]), [acc + "_i", "shape_i", "idx"])
-            order.append("append")
-        else:
-            raise T.Unsupported("%s: statement in the on-axis branch: %s" % (fn.name, ast.dump(st)[:80]))
-    if None in (shape_step, idx_step, appended) or len(order) != 3:
-        raise T.Unsupported("%s: on-axis branch must update the shape entry, append to indices and advance idx" % fn.name)
-    args = "(%s_i shape_i idx : Int)" % acc
-    out.append("/-- generated from `%s`: new shape entry on the axis -/\ndef %sShapeStep %s : Int := %s\n" % (fn.name, prefix, args, shape_step))
-    out.append("/-- generated from `%s`: new running index -/\ndef %sIdxStep %s : Int := %s\n" % (fn.name, prefix, args, idx_step))
-    out.append("/-- generated from `%s`: what is appended to `indices` -/\ndef %sAppended %s : Int := %s\n" % (fn.name, prefix, args, appended))
-    out.append("/-- generated from `%s`: `indices.append` happens before `idx` is advanced -/\ndef %sAppendBeforeAdvance : Bool := %s\n" % (
-        fn.name, prefix, "true" if order.index("append") < order.index("idx") else "false"))
-    # off-axis test: `elif shape[i] != acc[i]: raise`
-    if len(br.orelse) != 1 or not isinstance(br.orelse[0], ast.If) or br.orelse[0].orelse \
-            or not all(isinstance(s, ast.Raise) for s in br.orelse[0].body):
-        raise T.Unsupported("%s: off-axis branch form" % fn.name)
-    ex2 = T.Expr({"i": T.INT, "axis": T.INT, "ndim": T.INT, acc + "_i": T.INT, "shape_i": T.INT})
-    out.append("/-- generated from `%s`: the off-axis rejection test -/\ndef %sRejects (i axis ndim %s_i shape_i : Int) : Bool := decide %s\n" % (
-        fn.name, prefix, acc, ex2.cond(_flat(br.orelse[0].test))))
-    # rank test
-    first = outer[0].body[0]
-    if not (isinstance(first, ast.If) and all(isinstance(s, ast.Raise) for s in first.body) and not first.orelse):
-        raise T.Unsupported("%s: rank test form" % fn.name)
-
-
 def _apply_axis(tree, cls, attr, lean, out):
     fn = T.find_function(tree, cls + "._apply")
     found = []
@@ -122,15 +50,452 @@ def _apply_axis(tree, cls, attr, lean, out):
         cls, attr, lean, attr, T.formula(_flat(found[0]), [attr, "ndim"])))
 
 
+# ---------------------------------------------------------------------------------------------------------
+# T3: sequential statement translator for `_hstack_params` / `_vstack_params` (Python ast -> Lean text).
+#
+# Every statement is translated in source order into the continuation of the previous one, so swapping two
+# statements, moving `indices.append(idx)` behind `idx += ...`, dropping the normalisation or weakening a test
+# changes the generated definition (and `Props/C03Loop.lean: gen_loop_eq_combined` is re-checked against it).
+#
+# Types: Nat (list entries, lengths, loop counters), Int (`axis`), List Nat, List (List Nat).  Python
+# exceptions are `.error .build`.  Reads that can raise are explicit: `shapes[0]` -> `match shapes with`,
+# `l[axis]` with an Int index -> `C03.pyIndex`, `%` -> zero-divisor test.  A read `X[i]` with a loop counter is
+# translated to `X.getD i 0` ONLY when the translator has established `len(X) == N` and `i in range(N)` from
+# the preceding statements (`N = len(X)`, `if len(X) != N: raise`); otherwise it is Unsupported.  Anything
+# outside the subset raises T.Unsupported — no statement is ever skipped.
+# ---------------------------------------------------------------------------------------------------------
+NAT, INTT, LN, LLN = "Nat", "Int", "List Nat", "List (List Nat)"
+_CONST = re.compile(r"^\((\d+) : Nat\)$")
+
+
+def _to_int(s, t):
+    if t == INTT:
+        return s
+    if t == NAT:
+        m = _CONST.match(s)
+        return "(%s : Int)" % m.group(1) if m else "((%s : Nat) : Int)" % s
+    raise T.Unsupported("cannot use a %s as an int: %s" % (t, s))
+
+
+class _Ctx:
+    def __init__(self, env, rank=None, bound=None, split=False, loop=None, depth=0):
+        self.env = dict(env)          # name -> type, in declaration order
+        self.rank = dict(rank or {})  # list name -> scalar name N with len(list) == N
+        self.bound = dict(bound or {})  # counter name -> scalar name N with 0 <= counter < N
+        self.split = split            # `shapes` already destructured into shapes_0 :: shapes_rest
+        self.loop = loop              # None at function level, else the state tuple of the enclosing loop body
+        self.depth = depth
+
+    def copy(self):
+        return _Ctx(self.env, self.rank, self.bound, self.split, self.loop, self.depth)
+
+
+def _is_shapes0(n):
+    return isinstance(n, ast.Subscript) and isinstance(n.value, ast.Name) and n.value.id == "shapes" \
+        and isinstance(n.slice, ast.Constant) and n.slice.value == 0 and not isinstance(n.slice.value, bool)
+
+
+def _is_shapes_tail(n):
+    return isinstance(n, ast.Subscript) and isinstance(n.value, ast.Name) and n.value.id == "shapes" \
+        and isinstance(n.slice, ast.Slice) and isinstance(n.slice.lower, ast.Constant) and n.slice.lower.value == 1 \
+        and n.slice.upper is None and n.slice.step is None
+
+
+def _len_of(n):
+    """`len(X)` with X a name -> X, else None"""
+    if isinstance(n, ast.Call) and isinstance(n.func, ast.Name) and n.func.id == "len" and len(n.args) == 1 \
+            and not n.keywords and isinstance(n.args[0], ast.Name):
+        return n.args[0].id
+    return None
+
+
+class _Seq:
+    LOOPS = ["OuterStep", "InnerStep"]
+
+    def __init__(self, fn, prefix):
+        self.fn, self.prefix = fn, prefix
+        self.defs = []
+        self.used_loops = set()
+
+    def bad(self, what, node=None):
+        raise T.Unsupported("%s: %s%s" % (self.fn.name, what, "" if node is None else ": " + ast.dump(node)[:90]))
+
+    # ---- expressions -------------------------------------------------------------------------------
+    def ex(self, e, c):
+        if isinstance(e, ast.Constant):
+            if isinstance(e.value, bool) or not isinstance(e.value, int) or e.value < 0:
+                self.bad("constant", e)
+            return "(%d : Nat)" % e.value, NAT
+        if isinstance(e, ast.Name):
+            if e.id not in c.env:
+                self.bad("unknown name %s" % e.id)
+            return T.nm(e.id), c.env[e.id]
+        if isinstance(e, ast.List):
+            elts = [self.ex(x, c) for x in e.elts]
+            if any(t != NAT for _, t in elts):
+                self.bad("list literal with non-Nat entries", e)
+            return "[" + ", ".join(s for s, _ in elts) + "]", LN
+        if isinstance(e, ast.UnaryOp) and isinstance(e.op, ast.USub):
+            s, t = self.ex(e.operand, c)
+            return "(-%s)" % _to_int(s, t), INTT
+        if isinstance(e, ast.BinOp):
+            (a, ta), (b, tb) = self.ex(e.left, c), self.ex(e.right, c)
+            if isinstance(e.op, (ast.Add, ast.Mult)):
+                sym = "+" if isinstance(e.op, ast.Add) else "*"
+                if ta == NAT and tb == NAT:
+                    return "(%s %s %s)" % (a, sym, b), NAT
+                return "(%s %s %s)" % (_to_int(a, ta), sym, _to_int(b, tb)), INTT
+            if isinstance(e.op, ast.Sub):
+                return "(%s - %s)" % (_to_int(a, ta), _to_int(b, tb)), INTT
+            self.bad("binary operator (`%` only as a whole right-hand side `x = a % b`)", e)
+        if isinstance(e, ast.Call) and isinstance(e.func, ast.Name) and not e.keywords and len(e.args) == 1:
+            s, t = self.ex(e.args[0], c)
+            if e.func.id == "len" and t in (LN, LLN):
+                return "%s.length" % s, NAT
+            if e.func.id == "list" and t in (LN, LLN):
+                return s, t   # a copy: lists are values in Lean
+            self.bad("call", e)
+        if isinstance(e, ast.Subscript):
+            if _is_shapes0(e):
+                if not c.split:
+                    self.bad("internal: shapes[0] before the match")
+                return "shapes_0", LN
+            if _is_shapes_tail(e):
+                if not c.split:
+                    self.bad("shapes[1:] before shapes[0] was read")
+                return "shapes_rest", LLN
+            if isinstance(e.value, ast.Name) and isinstance(e.slice, ast.Name):
+                X, i = e.value.id, e.slice.id
+                if c.env.get(X) == LN and c.env.get(i) == NAT:
+                    if X in c.rank and c.bound.get(i) == c.rank[X]:
+                        return "%s.getD %s 0" % (T.nm(X), T.nm(i)), NAT
+                    self.bad("read %s[%s] is not known to be in range (no `len(%s) == N` test / `%s in range(N)`)" % (X, i, X, i))
+            self.bad("subscript", e)
+        self.bad("expression", e)
+
+    def atom(self, s):
+        return s if re.match(r"^[\w.']+$", s) or s.startswith("(") or s.startswith("[") else "(%s)" % s
+
+    def cond(self, e, c):
+        if isinstance(e, ast.BoolOp):
+            sym = " ∧ " if isinstance(e.op, ast.And) else " ∨ "
+            return "(" + sym.join(self.cond(v, c) for v in e.values) + ")"
+        if isinstance(e, ast.UnaryOp) and isinstance(e.op, ast.Not):
+            return "(¬ %s)" % self.cond(e.operand, c)
+        if isinstance(e, ast.Compare):
+            parts, left = [], e.left
+            for op, right in zip(e.ops, e.comparators):
+                (a, ta), (b, tb) = self.ex(left, c), self.ex(right, c)
+                sym = {ast.Lt: "<", ast.LtE: "≤", ast.Gt: ">", ast.GtE: "≥", ast.Eq: "=", ast.NotEq: "≠"}.get(type(op))
+                if sym is None:
+                    self.bad("comparison operator", e)
+                if ta == tb and (ta in (NAT, INTT) or sym in ("=", "≠")):
+                    parts.append("%s %s %s" % (a, sym, b))
+                elif {ta, tb} == {NAT, INTT}:
+                    parts.append("%s %s %s" % (_to_int(a, ta), sym, _to_int(b, tb)))
+                else:
+                    self.bad("comparison of %s with %s" % (ta, tb), e)
+                left = right
+            return parts[0] if len(parts) == 1 else "(" + " ∧ ".join(parts) + ")"
+        self.bad("condition", e)
+
+    # ---- facts ---------------------------------------------------------------------------------------
+    def assign(self, c, name, ty, keeps_length=False):
+        """bookkeeping for `name = ...`; returns nothing.  Invalidated length facts inside a loop body would
+        need a loop invariant the translator does not compute -> Unsupported."""
+        if name in ("shapes", "shapes_0", "shapes_rest"):
+            self.bad("assignment to %s" % name)
+        if name in c.env and c.env[name] != ty:
+            self.bad("%s changes type from %s to %s" % (name, c.env[name], ty))
+        if name in c.bound:
+            self.bad("assignment to the loop counter %s" % name)
+        dead = []
+        if not keeps_length and name in c.rank:
+            dead.append(name)
+        dead += [k for k, v in c.rank.items() if v == name] + [k for k, v in c.bound.items() if v == name]
+        if dead and c.loop is not None:
+            self.bad("assignment to %s inside a loop invalidates a length fact" % name)
+        for k in dead:
+            c.rank.pop(k, None)
+            c.bound.pop(k, None)
+        c.env[name] = ty
+
+    # ---- statements (continuation passing: `k(c, ind)` is the text of what follows the block) ---------
+    def block(self, stmts, c, ind, k):
+        if not stmts:
+            return k(c, ind)
+        s, rest = stmts[0], stmts[1:]
+        pad = "  " * ind
+        if isinstance(s, ast.Expr) and isinstance(s.value, ast.Constant) and isinstance(s.value.value, str):
+            return self.block(rest, c, ind, k)   # docstring / string statement: no effect
+        # the first evaluation of `shapes[0]` raises IndexError on an empty list
+        first_eval = s.test if isinstance(s, ast.If) else s.iter if isinstance(s, ast.For) else s
+        if not c.split and any(_is_shapes0(n) for n in ast.walk(first_eval)):
+            if c.loop is not None:
+                self.bad("shapes[0] first read inside a loop")
+            c.split = True
+            return (pad + "match shapes with\n" + pad + "| [] => .error .build  -- shapes[0]: IndexError\n"
+                    + pad + "| shapes_0 :: shapes_rest =>\n" + self.block(stmts, c, ind + 1, k))
+        nxt = lambda c2, ind2: self.block(rest, c2, ind2, k)
+        if isinstance(s, ast.AugAssign):
+            if not isinstance(s.op, (ast.Add, ast.Mod)):
+                self.bad("augmented assignment operator", s)
+            load = copy.deepcopy(s.target)
+            for n in ast.walk(load):
+                if hasattr(n, "ctx"):
+                    n.ctx = ast.Load()
+            s = ast.Assign(targets=[s.target], value=ast.BinOp(left=load, op=s.op, right=s.value))
+        if isinstance(s, ast.Assign):
+            if len(s.targets) != 1:
+                self.bad("chained assignment", s)
+            tgt, val = s.targets[0], s.value
+            if isinstance(tgt, ast.Name):
+                # name = L[e] with an Int index: Python list indexing with negative wrap-around, IndexError outside
+                if isinstance(val, ast.Subscript) and not _is_shapes0(val) and not _is_shapes_tail(val) \
+                        and not isinstance(val.slice, ast.Slice):
+                    (l, tl), (i, ti) = self.ex(val.value, c), self.ex(val.slice, c)
+                    if tl == LN and ti == INTT:
+                        self.assign(c, tgt.id, NAT)
+                        return (pad + "match C03.pyIndex %s %s with\n" % (self.atom(l), self.atom(i))
+                                + pad + "| none => .error .build  -- IndexError\n"
+                                + pad + "| some %s =>\n" % T.nm(tgt.id) + nxt(c, ind))
+                if isinstance(val, ast.BinOp) and isinstance(val.op, ast.Mod):
+                    (a, ta), (b, tb) = self.ex(val.left, c), self.ex(val.right, c)
+                    a, b = _to_int(a, ta), _to_int(b, tb)
+                    self.assign(c, tgt.id, INTT)
+                    return (pad + "if %s = 0 then .error .build  -- ZeroDivisionError\n" % b + pad + "else\n"
+                            + pad + "let %s : Int := pyMod %s %s\n" % (T.nm(tgt.id), self.atom(a), self.atom(b)) + nxt(c, ind))
+                v, ty = self.ex(val, c)
+                src = _len_of(val)
+                self.assign(c, tgt.id, ty)
+                if src is not None and c.env.get(src) in (LN,) and src != tgt.id:
+                    c.rank[src] = tgt.id       # N = len(X)
+                return pad + "let %s : %s := %s\n" % (T.nm(tgt.id), ty, v) + nxt(c, ind)
+            if isinstance(tgt, ast.Subscript) and isinstance(tgt.value, ast.Name) and isinstance(tgt.slice, ast.Name):
+                X, i = tgt.value.id, tgt.slice.id
+                if not (c.env.get(X) == LN and c.env.get(i) == NAT and X in c.rank and c.bound.get(i) == c.rank[X]):
+                    self.bad("write %s[%s] is not known to be in range" % (X, i))
+                v, ty = self.ex(val, c)
+                if ty != NAT:
+                    self.bad("list entry of type %s" % ty, val)
+                self.assign(c, X, LN, keeps_length=True)
+                return pad + "let %s : List Nat := %s.set %s %s\n" % (T.nm(X), T.nm(X), T.nm(i), self.atom(v)) + nxt(c, ind)
+            self.bad("assignment target", tgt)
+        if isinstance(s, ast.Expr) and isinstance(s.value, ast.Call) and isinstance(s.value.func, ast.Attribute) \
+                and s.value.func.attr == "append" and isinstance(s.value.func.value, ast.Name) \
+                and len(s.value.args) == 1 and not s.value.keywords:
+            X = s.value.func.value.id
+            if c.env.get(X) != LN:
+                self.bad("append to %s" % X)
+            v, ty = self.ex(s.value.args[0], c)
+            if ty != NAT:
+                self.bad("appended value of type %s" % ty, s)
+            self.assign(c, X, LN)
+            return pad + "let %s : List Nat := %s ++ [%s]\n" % (T.nm(X), T.nm(X), v) + nxt(c, ind)
+        if isinstance(s, ast.Raise):
+            if rest:
+                self.bad("statement after raise")
+            return pad + ".error .build"
+        if isinstance(s, ast.Return):
+            if c.loop is not None:
+                self.bad("return inside a loop")
+            if rest:
+                self.bad("statement after return")
+            if not (isinstance(s.value, ast.Tuple) and len(s.value.elts) == 2):
+                self.bad("return value form", s)
+            vals = [self.ex(v, c) for v in s.value.elts]
+            if [t for _, t in vals] != [LN, LN]:
+                self.bad("return type %s" % [t for _, t in vals])
+            return pad + ".ok (%s, %s)" % (vals[0][0], vals[1][0])
+        if isinstance(s, ast.If):
+            test = self.cond(s.test, c)
+            c_then, c_else = c.copy(), c.copy()
+            # `if len(X) != N: raise` establishes len(X) == N for what follows
+            if isinstance(s.test, ast.Compare) and len(s.test.ops) == 1 and isinstance(s.test.ops[0], ast.NotEq) \
+                    and s.body and isinstance(s.body[-1], ast.Raise):
+                for a, b in ((s.test.left, s.test.comparators[0]), (s.test.comparators[0], s.test.left)):
+                    X = _len_of(a)
+                    if X is not None and isinstance(b, ast.Name) and c.env.get(X) == LN and c.env.get(b.id) == NAT:
+                        c_else.rank[X] = b.id
+            th = self.block(s.body, c_then, ind + 1, nxt)
+            el = self.block(s.orelse, c_else, ind + 1, nxt)
+            return pad + "if %s then\n%s\n%selse\n%s" % (test, th, pad, el)
+        if isinstance(s, ast.For):
+            return self.loop(s, rest, c, ind, k)
+        self.bad("statement", s)
+
+    def loop(self, s, rest, c, ind, k):
+        pad = "  " * ind
+        if s.orelse or not isinstance(s.target, ast.Name):
+            self.bad("for form", s)
+        var = s.target.id
+        if var in c.env:
+            self.bad("loop variable %s shadows a variable" % var)
+        cb = c.copy()
+        if _is_shapes_tail(s.iter):
+            lst, vty = self.ex(s.iter, c)[0], LN
+        elif isinstance(s.iter, ast.Call) and isinstance(s.iter.func, ast.Name) and s.iter.func.id == "range" \
+                and len(s.iter.args) == 1 and not s.iter.keywords and isinstance(s.iter.args[0], ast.Name) \
+                and c.env.get(s.iter.args[0].id) == NAT:
+            lst, vty = "(List.range %s)" % T.nm(s.iter.args[0].id), NAT
+            cb.bound[var] = s.iter.args[0].id
+        else:
+            self.bad("loop is neither `for x in shapes[1:]` nor `for i in range(<nat variable>)`", s.iter)
+        if c.depth >= len(self.LOOPS):
+            self.bad("loop nesting deeper than 2")
+        name = self.prefix + self.LOOPS[c.depth]
+        if name in self.used_loops:
+            self.bad("two loops at nesting depth %d" % c.depth)
+        self.used_loops.add(name)
+        assigned, used = set(), set()
+        for b in s.body:
+            for n in ast.walk(b):
+                if isinstance(n, ast.Name):
+                    used.add(n.id)
+                    if isinstance(n.ctx, ast.Store):
+                        assigned.add(n.id)
+                if isinstance(n, (ast.Assign, ast.AugAssign)):
+                    for t in (n.targets if isinstance(n, ast.Assign) else [n.target]):
+                        if isinstance(t, ast.Subscript) and isinstance(t.value, ast.Name):
+                            assigned.add(t.value.id)
+                if isinstance(n, ast.Call) and isinstance(n.func, ast.Attribute) and isinstance(n.func.value, ast.Name):
+                    assigned.add(n.func.value.id)   # method call on a variable (append): treated as an update
+        state = [v for v in c.env if v in assigned]
+        if not state:
+            self.bad("loop without state")
+        if "shapes" in used:
+            self.bad("`shapes` used inside a loop body")
+        params = [v for v in c.env if v not in state and v != "shapes"
+                  and (c.env[v] in (NAT, INTT) or v in used)]
+        sty = " × ".join(c.env[v] for v in state)
+        tup = "(" + ", ".join(T.nm(v) for v in state) + ")"
+        cb.env[var] = vty
+        cb.loop = state
+        cb.depth = c.depth + 1
+        body = self.block(s.body, cb, 2, lambda c2, ind2: "  " * ind2 + ".ok " + tup)
+        src = ast.unparse(s).split("\n")[0]
+        self.defs.append(
+            "/-- generated from `%s`: one iteration of `%s` (state `%s`), statement by statement -/\n"
+            "def %s %s (st : %s) (%s : %s) :\n    Except C03.Err (%s) :=\n  match st with\n  | %s =>\n%s\n" % (
+                self.fn.name, src, tup, name, " ".join("(%s : %s)" % (T.nm(v), c.env[v]) for v in params), sty,
+                T.nm(var), vty, sty, tup, body))
+        call = "C03.foldE (%s) %s %s" % (" ".join([name] + [T.nm(v) for v in params]), tup, lst)
+        return (pad + "match %s with\n" % call + pad + "| .error e => .error e\n" + pad + "| .ok %s =>\n" % tup
+                + self.block(rest, c, ind, k))
+
+    # ---- the function ----------------------------------------------------------------------------------
+    def translate(self):
+        fn = self.fn
+        a = fn.args
+        if [x.arg for x in a.args] != ["shapes", "axis"] or a.vararg or a.kwarg or a.kwonlyargs or a.posonlyargs or a.defaults:
+            self.bad("signature")
+        body = list(fn.body)
+        if body and isinstance(body[0], ast.Expr) and isinstance(body[0].value, ast.Constant) and isinstance(body[0].value.value, str):
+            body = body[1:]
+        if not body:
+            self.bad("empty body")
+        # `if axis is None: return <same function>([[util.prod(shape)] for shape in shapes], <const>)`
+        d = body[0]
+        ok = isinstance(d, ast.If) and not d.orelse and isinstance(d.test, ast.Compare) and len(d.test.ops) == 1 \
+            and isinstance(d.test.ops[0], ast.Is) and isinstance(d.test.left, ast.Name) and d.test.left.id == "axis" \
+            and isinstance(d.test.comparators[0], ast.Constant) and d.test.comparators[0].value is None \
+            and len(d.body) == 1 and isinstance(d.body[0], ast.Return) and isinstance(d.body[0].value, ast.Call)
+        if not ok:
+            self.bad("first statement is not `if axis is None: return <call>`", d)
+        call = d.body[0].value
+        if not (isinstance(call.func, ast.Name) and call.func.id == fn.name and len(call.args) == 2 and not call.keywords):
+            self.bad("the `axis is None` branch does not call %s(<shapes>, <axis>)" % fn.name, call)
+        lc, const = call.args
+        if not (isinstance(const, ast.Constant) and isinstance(const.value, int) and not isinstance(const.value, bool)):
+            self.bad("axis argument of the recursive call is not an int constant", const)
+        if not (isinstance(lc, ast.ListComp) and len(lc.generators) == 1 and not lc.generators[0].ifs
+                and not lc.generators[0].is_async and isinstance(lc.generators[0].target, ast.Name)
+                and isinstance(lc.generators[0].iter, ast.Name) and lc.generators[0].iter.id == "shapes"):
+            self.bad("shapes argument of the recursive call is not `[.. for x in shapes]`", lc)
+        v = lc.generators[0].target.id
+        e = lc.elt
+        if not (isinstance(e, ast.List) and len(e.elts) == 1 and isinstance(e.elts[0], ast.Call) and not e.elts[0].keywords
+                and isinstance(e.elts[0].func, ast.Attribute) and e.elts[0].func.attr == "prod"
+                and isinstance(e.elts[0].func.value, ast.Name) and e.elts[0].func.value.id == "util"
+                and len(e.elts[0].args) == 1 and isinstance(e.elts[0].args[0], ast.Name) and e.elts[0].args[0].id == v):
+            self.bad("flattened shape is not `[util.prod(%s)]`" % v, e)
+        for n in body[1:]:
+            for m in ast.walk(n):
+                if isinstance(m, ast.Constant) and m.value is None:
+                    self.bad("`None` after the `axis is None` dispatch")
+        c = _Ctx({"shapes": LLN, "axis": INTT})
+
+        def falls_off(c2, ind2):
+            self.bad("control can reach the end of the function without `return`")
+        text = self.block(body[1:], c, 1, falls_off)
+        P = self.prefix
+        rt = "Except C03.Err (List Nat × List Nat)"
+        out = list(self.defs)
+        out.append("/-- generated from `%s`: the body after the `axis is None` dispatch (`axis` is an int), statement by\n"
+                   "    statement in source order; every Python exception is `.error .build` -/\n"
+                   "def %sParamsAx (shapes : List (List Nat)) (axis : Int) : %s :=\n%s\n" % (fn.name, P, rt, text))
+        out.append("/-- generated from `%s`: `if axis is None: return %s([[util.prod(%s)] for %s in shapes], %d)` -/\n"
+                   "def %sParams (shapes : List (List Nat)) (axis : Option Int) : %s :=\n  match axis with\n"
+                   "  | none => %sParamsAx (shapes.map fun %s => [C03.sprod %s]) (%d : Int)\n"
+                   "  | some axis => %sParamsAx shapes axis\n" % (
+                       fn.name, fn.name, v, v, const.value, P, rt, P, T.nm(v), T.nm(v), const.value, P))
+        return out
+
+
+def _guard(tree, meth, attr, lean, out):
+    """`Linop._check_ishape/_check_oshape`: `for a, b in zip(<array>.shape, self.<attr>): if COND: raise`"""
+    fn = T.find_function(tree, "Linop." + meth)
+
+    def bad(what):
+        raise T.Unsupported("Linop.%s: %s" % (meth, what))
+    args = [a.arg for a in fn.args.args]
+    if len(args) != 2 or args[0] != "self" or fn.args.vararg or fn.args.kwarg or fn.args.kwonlyargs or fn.args.defaults:
+        bad("signature %s" % args)
+    body = list(fn.body)
+    if body and isinstance(body[0], ast.Expr) and isinstance(body[0].value, ast.Constant) and isinstance(body[0].value.value, str):
+        body = body[1:]
+    if len(body) != 1 or not isinstance(body[0], ast.For) or body[0].orelse:
+        bad("body is not a single `for` loop")
+    f = body[0]
+    if not (isinstance(f.target, ast.Tuple) and len(f.target.elts) == 2 and all(isinstance(e, ast.Name) for e in f.target.elts)):
+        bad("loop target is not a pair of names")
+    a, b = [e.id for e in f.target.elts]
+    if a == b:
+        bad("loop target names coincide")
+    it = f.iter
+    if not (isinstance(it, ast.Call) and isinstance(it.func, ast.Name) and it.func.id == "zip" and len(it.args) == 2 and not it.keywords):
+        bad("loop is not over zip(_, _)")
+    x, y = it.args
+    if not (isinstance(x, ast.Attribute) and x.attr == "shape" and isinstance(x.value, ast.Name) and x.value.id == args[1]):
+        bad("first zip argument is not %s.shape" % args[1])
+    if not (isinstance(y, ast.Attribute) and y.attr == attr and isinstance(y.value, ast.Name) and y.value.id == "self"):
+        bad("second zip argument is not self.%s" % attr)
+    if len(f.body) != 1 or not isinstance(f.body[0], ast.If) or f.body[0].orelse \
+            or len(f.body[0].body) != 1 or not isinstance(f.body[0].body[0], ast.Raise):
+        bad("loop body is not `if COND: raise`")
+    cond = T.Expr({a: T.INT, b: T.INT}).cond(f.body[0].test)
+    out.append("/-- generated from `Linop.%s`: the test that raises for one pair `(%s, %s)` of `zip(%s.shape, self.%s)` -/\n"
+               "def %sRejects (%s %s : Int) : Bool := decide %s\n" % (meth, a, b, args[1], attr, lean, T.nm(a), T.nm(b), cond))
+    out.append("/-- generated from `Linop.%s`: `for %s, %s in zip(%s.shape, self.%s): if ..: raise` — accepted iff no pair is\n"
+               "    rejected (`zip` stops at the shorter list) -/\n"
+               "def %s (got adv : List Int) : Bool := (List.zip got adv).all fun p => !(%sRejects p.1 p.2)\n" % (
+                   meth, a, b, args[1], attr, lean, lean))
+
+
+
 def gen_stack_params(ctx=None):
     tree = _parse("sigpy/linop.py")
-    out = [HEADER % "sigpy/linop.py"]
-    _params(T.find_function(tree, "_hstack_params"), "ishape", "hstack", out)
-    _params(T.find_function(tree, "_vstack_params"), "oshape", "vstack", out)
+    out = [(HEADER % "sigpy/linop.py").replace("import SigpyVerif.Model.Py\n",
+                                                "import SigpyVerif.Model.Py\nimport SigpyVerif.Model.C03Base\n")]
     _apply_axis(tree, "Hstack", "axis", "hstackApplyAxis", out)
     _apply_axis(tree, "Vstack", "axis", "vstackApplyAxis", out)
     _apply_axis(tree, "Diag", "iaxis", "diagApplyIAxis", out)
     _apply_axis(tree, "Diag", "oaxis", "diagApplyOAxis", out)
+    # faithful statement-by-statement translation of both parameter functions and of the shape guards
+    out.extend(_Seq(T.find_function(tree, "_hstack_params"), "hstack").translate())
+    out.extend(_Seq(T.find_function(tree, "_vstack_params"), "vstack").translate())
+    _guard(tree, "_check_ishape", "ishape", "checkIshape", out)
+    _guard(tree, "_check_oshape", "oshape", "checkOshape", out)
     out.append("end SigpyVerif.Gen\n")
     return "\n".join(out)
 
